@@ -1,6 +1,7 @@
-(** RFC 9112 message syntax as a *generator*: how a conforming client writes a request head
-    (section 3 request-line, section 5 field lines in their canonical form "name: value", section 2.1
-    CRLF line ends).  Spec material for C19 (written from the RFC, not from twisted). *)
+(** RFC 9112 message syntax as a *generator*: how a client may write a request head -- section 3
+    request-line, section 5 field lines "field-name ":" OWS field-value OWS" with optional obs-fold
+    continuation lines (section 5.2), section 2.1 CRLF line ends.  Spec material for C19 (written from
+    the RFC, not from twisted). *)
 From Coq Require Import List NArith Bool.
 From TwLib Require Import HttpGrammar.
 Import ListNotations.
@@ -8,16 +9,51 @@ Import ListNotations.
 Definition CRLFo : octets := [13; 10]%N.
 Definition COLONo : N := 58%N.
 
-(* RFC 9110 5.5: field-content = field-vchar [ 1*( SP / HTAB / field-vchar ) field-vchar ],
-   field-vchar = VCHAR / obs-text: no CR, LF or NUL anywhere, no leading / trailing whitespace *)
+(* RFC 9110 5.5: a field value consists of VCHAR / obs-text / SP / HTAB: never CR, LF or NUL *)
 Definition is_field_octet (c : N) : bool := (negb (N.eqb c 0) && negb (N.eqb c 13) && negb (N.eqb c 10))%bool.
 Definition is_ows (c : N) : bool := (N.eqb c SP || N.eqb c HTAB)%bool.
-Definition wf_field_value (v : octets) : bool :=
-  (forallb is_field_octet v &&
-   match v with [] => true | x :: _ => (negb (is_ows x) && negb (is_ows (last v 0%N)))%bool end)%bool.
-Definition wf_field (f : octets * octets) : bool := (rfc_token (fst f) && wf_field_value (snd f))%bool.
 
-Definition field_line (f : octets * octets) : octets := fst f ++ COLONo :: SP :: snd f.
+(* OWS around the value is not part of it (RFC 9112 5.1) *)
+Fixpoint drop_ows (b : octets) : octets :=
+  match b with x :: r => if is_ows x then drop_ows r else b | [] => [] end.
+Definition trim_ows (b : octets) : octets := rev (drop_ows (rev (drop_ows b))).
+
+(** a field as written on the wire: "name:" raw CRLF, then any number of obs-fold continuation lines
+    (1*(SP/HTAB), text) CRLF *)
+Record field := mkfield { f_name : octets; f_raw : octets; f_conts : list (octets * octets) }.
+
+(* RFC 9112 5.2: a recipient replaces each obs-fold by SP before interpreting the value *)
+Definition f_unfolded (f : field) : octets := f_raw f ++ flat_map (fun c => SP :: snd c) (f_conts f).
+Definition f_value (f : field) : octets := trim_ows (f_unfolded f).
+Definition field_pair (f : field) : octets * octets := (f_name f, f_value f).
+
+Definition wf_cont (c : octets * octets) : bool :=
+  (nonempty (fst c) && forallb is_ows (fst c) && forallb is_field_octet (snd c) &&
+   match snd c with x :: _ => negb (is_ows x) | [] => true end)%bool.
+Definition wf_field (f : field) : bool :=
+  (rfc_token (f_name f) && forallb is_field_octet (f_raw f) && forallb wf_cont (f_conts f))%bool.
+
+Definition first_line (f : field) : octets := f_name f ++ COLONo :: f_raw f.
+Definition cont_line (c : octets * octets) : octets := fst c ++ snd c.
+Definition field_lines (f : field) : octets :=
+  first_line f ++ CRLFo ++ flat_map (fun c => cont_line c ++ CRLFo) (f_conts f).
 Definition request_line (m t v : octets) : octets := m ++ SP :: t ++ SP :: v.
-Definition render_head (m t v : octets) (fields : list (octets * octets)) : octets :=
-  request_line m t v ++ CRLFo ++ flat_map (fun f => field_line f ++ CRLFo) fields ++ CRLFo.
+Definition render_head (m t v : octets) (fields : list field) : octets :=
+  request_line m t v ++ CRLFo ++ flat_map field_lines fields ++ CRLFo.
+
+(* the canonical way to write a field: "name: value" *)
+Definition canonical (name value : octets) : field := mkfield name (SP :: value) [].
+
+(** RFC 9112 5: field-line = field-name ":" OWS field-value OWS, field-name = token; a value never
+    contains NUL (RFC 9110 5.5).  Recogniser for one (unfolded) line. *)
+Fixpoint split_colon (l : octets) : option (octets * octets) :=
+  match l with
+  | [] => None
+  | x :: r => if N.eqb x COLONo then Some ([], r)
+              else match split_colon r with Some (n, v) => Some (x :: n, v) | None => None end
+  end.
+Definition rfc_field_line (l : octets) : bool :=
+  match split_colon l with
+  | None => false
+  | Some (n, v) => (rfc_token n && negb (existsb (N.eqb 0) v))%bool
+  end.
